@@ -161,6 +161,26 @@ func e2eC17(repo, dir string, vals map[string]string) ([]string, error) {
 		}
 	}
 	os.RemoveAll(filepath.Join(e.dir, "kind"))
+	// faults that only show with a second line or in a second package: an unknown goverter:context name next to a
+	// valid one (either order), an extend line (plain name or pattern) into a package that does not compile
+	for i, src := range []string{
+		"package flt\n\n// goverter:converter\ntype C interface {\n\t// goverter:context ctx\n\t// goverter:context zone\n\tConvert(source In, ctx Loc) Out\n}\ntype Loc struct{ L string }\ntype In struct{ A int }\ntype Out struct{ A int }\n",
+		"package flt\n\n// goverter:converter\ntype C interface {\n\t// goverter:context zone\n\t// goverter:context actx\n\tConvert(source In, zone Loc) Out\n}\ntype Loc struct{ L string }\ntype In struct{ A int }\ntype Out struct{ A int }\n",
+		"package flt\n\n// goverter:converter\n// goverter:extend e2e/flt/ext:Conv.*\ntype C interface {\n\tConvert(source In) Out\n}\ntype In struct{ A int }\ntype Out struct{ A string }\n",
+		"package flt\n\n// goverter:converter\n// goverter:extend e2e/flt/ext:ConvA\ntype C interface {\n\tConvert(source In) Out\n}\ntype In struct{ A int }\ntype Out struct{ A string }\n",
+	} {
+		e.write("flt/in.go", src)
+		e.write("flt/ext/ext.go", "package ext\n\nfunc ConvA(i int) string { return \"\" }\n\nvar broken Missing\n")
+		bk := e.tree()
+		code, _, se := e.run("gen", "./good2", "./flt")
+		if code != 1 || strings.TrimSpace(se) == "" {
+			bad = append(bad, fmt.Sprintf("faulty converter %d (unknown context name next to a valid one / extend into a package that does not compile): exit %d, want 1 and a diagnostic", i, code))
+		}
+		if d := sameTree(bk, e.tree()); len(d) > 0 {
+			bad = append(bad, fmt.Sprintf("failing run (faulty converter %d) changed files: %s", i, strings.Join(d, ", ")))
+		}
+	}
+	os.RemoveAll(filepath.Join(e.dir, "flt"))
 	// a -g line that one of the converters of the run cannot take fails the run, whichever converter it is
 	e.write("gvars/in.go", "package gvars\n\n// goverter:variables\nvar (\n\tConvert func(source In) Out\n)\n\ntype In struct{ A int }\ntype Out struct{ A int }\n")
 	for _, args := range [][]string{{"gen", "-g", "output:format function", "./good2", "./gvars"}, {"gen", "-g", "output:format function", "./gvars", "./good2"}, {"gen", "-g", "output:format function", "./gvars"}} {
@@ -386,7 +406,7 @@ func e2eC16(repo, dir string, vals map[string]string) ([]string, error) {
 	}
 	os.RemoveAll(filepath.Join(e.dir, "mixed"))
 	// ... whatever the go tool accepts as a tag: dots, a leading digit, a Go keyword, several tags
-	for _, tag := range []string{"codegen.v2", "2fa", "type", "gen,codegen.v2"} {
+	for _, tag := range []string{"codegen.v2", "2fa", "type", "gen,codegen.v2", "codegen,gen", "gen,ge,g"} {
 		last := tag[strings.LastIndex(tag, ",")+1:]
 		e.write("tagform/in.go", strings.Replace(e2eGood, "package good", "package tagform", 1))
 		e.write("tagform/use.go", "//go:build !"+last+"\n\npackage tagform\n\nimport \"e2e/tagform/generated\"\n\nvar _ C = &generated.CImpl{}\n")
@@ -947,6 +967,25 @@ func e2eC01(repo, dir string, vals map[string]string) ([]string, error) {
 	if code, _, se := e.run("gen", "./dup2"); code != 1 || strings.TrimSpace(se) == "" {
 		if out, err := e.goBuild("./dup2/..."); err != nil {
 			bad = append(bad, "two converters named Same in one output package: accepted, the package does not compile: "+firstLine(out))
+		}
+	}
+	// helper names are unique per output package, however the converters spell that package (with and without
+	// the name) and whichever files they write
+	e.write("pid/model/model.go", "package model\n\ntype In struct{ N int }\ntype Out struct{ N int }\n")
+	e.write("pid/a/in.go", "package a\n\nimport \"e2e/pid/model\"\n\n// goverter:converter\n// goverter:output:format function\n// goverter:output:file ../gen/a.go\n// goverter:output:package e2e/pid/gen:gen\ntype A interface {\n\tConvertA(source []model.In) []model.Out\n}\n")
+	e.write("pid/b/in.go", "package b\n\nimport \"e2e/pid/model\"\n\n// goverter:converter\n// goverter:output:format function\n// goverter:output:file ../gen/b.go\n// goverter:output:package e2e/pid/gen\ntype B interface {\n\tConvertB(source map[string]model.In) map[string]model.Out\n}\n")
+	if code, _, _ := e.run("gen", "./pid/..."); code == 0 {
+		if out, err := e.goBuild("./pid/..."); err != nil {
+			bad = append(bad, "two function-format converters writing two files of one output package (spelled path:name and path): the package does not compile: "+firstLine(out))
+		}
+	}
+	// ... also when they are written to two files of that package, from two source packages
+	for _, d := range []string{"users", "orders"} {
+		e.write("dup4/"+d+"/in.go", "package "+d+"\n\n// goverter:converter\n// goverter:output:file ../gen/"+d+".go\n// goverter:output:package e2e/dup4/gen\ntype Converter interface {\n\tConvert(source In) Out\n}\ntype In struct{ N int }\ntype Out struct{ N int }\n")
+	}
+	if code, _, se := e.run("gen", "./dup4/..."); code != 1 || strings.TrimSpace(se) == "" {
+		if out, err := e.goBuild("./dup4/..."); err != nil {
+			bad = append(bad, "two converters named Converter written to two files of one output package: accepted, the package does not compile: "+firstLine(out))
 		}
 	}
 	return bad, nil
@@ -1511,6 +1550,38 @@ func e2eC12(repo, dir string, vals map[string]string) ([]string, error) {
 		bad = append(bad, "an extend line that cannot be resolved is not reported where it was written (-g: "+firstLine(seG)+" | doc comment: "+firstLine(seD)+")")
 	}
 	os.RemoveAll(filepath.Join(e.dir, "loc"))
+	// the converters of one run are configured independently: each one's enum:exclude lines are its own
+	{
+		enums := func(pk string) string {
+			return "package " + pk + "\n\ntype Color int\n\nconst (\n\tRed Color = iota\n\tGreen\n)\n\ntype Shape int\n\nconst (\n\tDot Shape = iota\n\tBox\n)\n"
+		}
+		conv := func(name, excl string) string {
+			return "// goverter:converter\n// goverter:enum:unknown @panic\n// goverter:enum:exclude " + excl + "\ntype " + name + " interface {\n\tConvertC(source ea.Color) eb.Color\n\tConvertS(source ea.Shape) eb.Shape\n}\n\n"
+		}
+		e.write("indep/ea/e.go", enums("ea"))
+		e.write("indep/eb/e.go", enums("eb"))
+		e.write("indep/in.go", "package indep\n\nimport (\n\t\"e2e/indep/ea\"\n\t\"e2e/indep/eb\"\n)\n\n"+conv("A", ".*:Color")+conv("B", ".*:Shape"))
+		code, _, se := e.run("gen", "./indep")
+		b, _ := os.ReadFile(filepath.Join(e.dir, "indep/generated/generated.go"))
+		body := func(recv, m string) string {
+			t := string(b)
+			i := strings.Index(t, "func (c *"+recv+"Impl) "+m+"(")
+			if i < 0 {
+				return ""
+			}
+			t = t[i:]
+			if j := strings.Index(t, "\nfunc "); j > 0 {
+				t = t[:j]
+			}
+			return t
+		}
+		if code != 0 {
+			bad = append(bad, "two converters with different enum:exclude lines are not generated: "+firstLine(se))
+		} else if strings.Contains(body("A", "ConvertC"), "switch") || !strings.Contains(body("A", "ConvertS"), "switch") || !strings.Contains(body("B", "ConvertC"), "switch") || strings.Contains(body("B", "ConvertS"), "switch") {
+			bad = append(bad, "the enum:exclude line of one converter changes the other converter of the run")
+		}
+		os.RemoveAll(filepath.Join(e.dir, "indep"))
+	}
 	// the value of one -g flag is one setting line, whatever characters it contains (a comma inside a regular
 	// expression); an empty one is malformed
 	e.write("gcomma/in.go", "package gcomma\n\n// goverter:converter\ntype C interface {\n\tConvert(cctx Loc, source In) Out\n}\ntype Loc struct{ Lang string }\ntype In struct{ ID int }\ntype Out struct{ ID int }\n")
